@@ -1,12 +1,17 @@
 package main
 
 import (
+	"bytes"
 	"context"
 	"encoding/json"
 	"fmt"
 	"io"
 	"net/http"
+	"net/http/httptest"
+	"sync"
 	"time"
+
+	"github.com/bufbuild/connect-go/verifharness/refcodec"
 
 	connect "github.com/bufbuild/connect-go"
 )
@@ -77,6 +82,10 @@ func runSendSide(raw json.RawMessage, seed int64, rec *Rec) {
 	_ = json.Unmarshal(raw, &scm)
 	delete(scm, "tid")
 	rec.Add(E("reset", "tid", s.Tid, "sc", scm))
+	if s.Kind == "hserver" || s.Kind == "hbidi" {
+		runSendSideHandler(&s, rec)
+		return
+	}
 	mctx := &manualCtx{Context: context.Background(), done: make(chan struct{}), deadline: s.Fault == "ctxd"}
 	tr := &faultyHTTP{s: &s, mctx: mctx, done: make(chan struct{})}
 	copts := append(clientProtoOpts(s.Proto), connect.WithInterceptors(connLogger{rec: rec}))
@@ -143,4 +152,92 @@ func runSendSide(raw json.RawMessage, seed int64, rec *Rec) {
 		// (a request that was never started has no transport goroutine)
 	}
 	mctx.end("canceled")
+}
+
+// ---- handler side: a ResponseWriter that accepts `cut` Write calls and refuses the rest (the client went away) ----
+
+type failingRW struct {
+	hdr    http.Header
+	writes int
+	cut    int
+}
+
+func (w *failingRW) Header() http.Header { return w.hdr }
+func (w *failingRW) WriteHeader(int)     {}
+func (w *failingRW) Flush()              {}
+func (w *failingRW) Write(p []byte) (int, error) {
+	w.writes++
+	if w.writes > w.cut {
+		return 0, errInjected
+	}
+	return len(p), nil
+}
+
+type sendSideKey struct{}
+
+type sendSideState struct {
+	rec   *Rec
+	n     int
+	first error
+}
+
+var sendSideHandlers sync.Map
+
+func sendSideHandler(kind string) *connect.Handler {
+	if h, ok := sendSideHandlers.Load(kind); ok {
+		return h.(*connect.Handler)
+	}
+	send := func(st *sendSideState, f func(*BV) error) {
+		for i := 0; i < st.n; i++ {
+			st.rec.Add(E("call", "op", "send"))
+			err := f(&BV{Value: []byte{byte(i + 1)}})
+			res := "ok"
+			if err != nil {
+				res = "fail"
+				if st.first == nil {
+					st.first = err
+				}
+			}
+			st.rec.Add(E("ret", "op", "send", "res", res, "code", codeOf(err)))
+		}
+	}
+	var h *connect.Handler
+	if kind == "hserver" {
+		h = connect.NewServerStreamHandler("/verif.v1.Svc/Method", func(ctx context.Context, _ *connect.Request[BV], ss *connect.ServerStream[BV]) error {
+			send(ctx.Value(sendSideKey{}).(*sendSideState), ss.Send)
+			return nil
+		})
+	} else {
+		h = connect.NewBidiStreamHandler("/verif.v1.Svc/Method", func(ctx context.Context, bs *connect.BidiStream[BV, BV]) error {
+			send(ctx.Value(sendSideKey{}).(*sendSideState), bs.Send)
+			return nil
+		})
+	}
+	actual, _ := sendSideHandlers.LoadOrStore(kind, h)
+	return actual.(*connect.Handler)
+}
+
+func runSendSideHandler(s *sendScenario, rec *Rec) {
+	st := &sendSideState{rec: rec, n: len(s.Sizes)}
+	body := refcodec.Envelope(0, marshalBV([]byte{1}))
+	req := httptest.NewRequest(http.MethodPost, "http://verif.test/verif.v1.Svc/Method", bytes.NewReader(body))
+	req.ProtoMajor, req.ProtoMinor = 2, 0
+	req.Header.Set("Content-Type", contentType(s.Proto, false, "proto"))
+	rw := &failingRW{hdr: http.Header{}, cut: s.Cut}
+	finished := make(chan struct{})
+	go func() {
+		defer close(finished)
+		defer func() {
+			if p := recover(); p != nil {
+				rec.Add(E("panic", "value", fmt.Sprint(p), "stacks", allStacks()))
+			}
+		}()
+		sendSideHandler(s.Kind).ServeHTTP(rw, req.WithContext(context.WithValue(req.Context(), sendSideKey{}, st)))
+		rec.Add(E("final", "ok", st.first == nil, "code", codeOf(st.first)))
+	}()
+	select {
+	case <-finished:
+	case <-time.After(15 * time.Second):
+		rec.Add(E("stuck", "op", "handler", "stacks", allStacks()))
+	}
 }
